@@ -291,6 +291,10 @@ def make_tasks(tier):
         T.append(("random_flag_complex_d2", {"N": N, "p": 0.5}))
     T.append(("flag_complex_ps", {"N": 4, "ps": [0.5, 0.5], "max_order": 3, "graph": "complete"}))
     T.append(("flag_complex_ps", {"N": 4, "ps": [0.5], "max_order": 2, "graph": "complete"}))
+    for ps, mo in (([1.0, 0.0], 3), ([0.0, 1.0], 3), ([1.0], 3), ([1.0, 0.5], 3), ([0.5, 1.0], 3), ([1.0, 1.0], 3), ([0.0, 0.0], 3),
+                   ([1.0], 2), ([0.0], 2)):
+        T.append(("flag_complex_ps", {"N": 4, "ps": ps, "max_order": mo, "graph": "complete"}))
+    T.append(("flag_complex_ps", {"N": 5, "ps": [1.0, 0.0], "max_order": 3, "graph": "wheel"}))
     T.append(("flag_complex_d2_p2", {"N": 4, "p2": 0.5, "graph": "complete"}))
     T.append(("shuffle_hyperedges", {"edges": [[0, 1], [1, 2], [0, 1, 2]], "order": 1, "p": 0.5}))
     T.append(("shuffle_hyperedges", {"edges": [[0, 1], [2, 3]], "order": 1, "p": 1.0}))
@@ -507,7 +511,7 @@ def call_and_check(name, P):
         return call, None, oracle, 1 << math.comb(N, 2)
     if name in ("flag_complex_ps", "flag_complex_d2_p2"):
         N = P["N"]
-        G = nx.complete_graph(N)
+        G = nx.complete_graph(N) if P.get("graph", "complete") == "complete" else nx.wheel_graph(N)
         if name == "flag_complex_ps":
             mo = P["max_order"]
             call = lambda: xgi.flag_complex(G, max_order=mo, ps=P["ps"], seed=7)  # noqa: E731
@@ -524,6 +528,18 @@ def call_and_check(name, P):
                 msgs.append("the graph's edges are not exactly the 1-simplices")
             if not closed(es) or len(es) != len(set(es)) or any(len(e) > mo + 1 for e in es):
                 msgs.append(f"not a downward-closed complex within max_order {mo}: {sorted(map(sorted, es))}")
+            if not set(es) <= cliques_upto(G, mo + 1):
+                msgs.append("a simplex is not a clique of the graph")
+            if name == "flag_complex_ps":
+                # orders with probability 1 contain every clique of that size; with probability 0 only faces of larger ones
+                for i, p in enumerate(P["ps"][:mo - 1]):
+                    size = i + 3
+                    cl = {c for c in cliques_upto(G, size) if len(c) == size}
+                    have = {e for e in es if len(e) == size}
+                    if p == 1 and have != cl:
+                        msgs.append(f"probability 1 for simplices of {size} nodes but {sorted(map(sorted, cl - have))} are missing")
+                    if p == 0 and any(not any(e < o for o in es) for e in have):
+                        msgs.append(f"probability 0 for simplices of {size} nodes but some are present without being a face")
             return msgs
 
         return call, None, oracle, None
